@@ -85,7 +85,9 @@ impl PreSharedKey {
 }
 
 fn parse_hex_key(s: &str) -> Result<[u8; KEY_SIZE], KeyParseError> {
-    if s.len() == KEY_SIZE * 2 {
+    // Hex digits are ASCII. A key of the right byte length that contains a multi-byte
+    // character is too short in characters and must not be sliced at arbitrary byte offsets.
+    if s.len() == KEY_SIZE * 2 && s.is_ascii() {
         let mut r = [0u8; KEY_SIZE];
         for i in 0..KEY_SIZE {
             r[i] = u8::from_str_radix(&s[i * 2..i * 2 + 2], 16)
@@ -357,6 +359,20 @@ mod tests {
         );
         assert_eq!(
             "/key/swarm/psk/1.0.0/\n/base16/\ny"
+                .parse::<PreSharedKey>()
+                .unwrap_err(),
+            InvalidKeyLength
+        );
+    }
+
+    #[test]
+    fn psk_parse_non_ascii_key_does_not_panic() {
+        use KeyParseError::*;
+        // 64 bytes, but the multi-byte character straddles a two-byte hex group.
+        let key = format!("a\u{e9}{}", "0".repeat(61));
+        assert_eq!(key.len(), 64);
+        assert_eq!(
+            format!("/key/swarm/psk/1.0.0/\n/base16/\n{key}\n")
                 .parse::<PreSharedKey>()
                 .unwrap_err(),
             InvalidKeyLength
